@@ -69,7 +69,7 @@ Record devices := { has_totp : bool; has_u2f : bool; has_wa : bool; has_profile 
 
 Record challenge := { chid : N; ch_wa : bool; chexp : Z }.   (* ch_wa: created by webauthnAuthLogin *)
 Record boototp := { bserial : N; bexp : Z }.
-Record vipentry := { vc : N; vuser : N; vtx : N }.
+Record vipentry := { vc : N; vuser : N; vtx : N; vexp : Z }.   (* vexp: pushPollTransaction.ExpiresAt *)
 
 Record st := {
   issued : list cookie;                (* every auth cookie emitted so far, oldest first *)
@@ -94,6 +94,8 @@ Record config := {
   cookie_life : Z;      (* maxAgeSecondsAuthCookie *)
   sel_last : bool;      (* checkAuth authenticates the LAST auth_cookie of the request *)
   upg_last : bool;      (* updateAuthCookieAuthlevel re-signs the LAST auth_cookie of the request *)
+  vip_life : Z;              (* maxAgeSecondsVIPCookie *)
+  vip_expiry : bool;         (* getPushPollTransaction ignores an entry past its ExpiresAt (repaired) *)
   poll_checks_user : bool;   (* VIPPollCheckHandler compares the transaction's user (the repaired code) *)
   totp_monotone : bool;      (* validateUserTOTP refuses steps <= the last accepted one (repaired) *)
   chal_expiry : bool;        (* the finish handlers test the challenge's ExpiresAt (repaired) *)
@@ -199,7 +201,10 @@ Definition upgrade (k : config) (s : st) (u : N) (cs : list nat) (lvl : N) : st 
            (set_issued s (issued s ++ [c']), Some c')
   end.
 
-Definition find_vip (s : st) (v : N) : option vipentry := find (fun e => N.eqb (vc e) v) (vip s).
+(* getPushPollTransaction: the entry stored for the cookie value (the newest one; starting a push
+   overwrites), none if it is past its ExpiresAt (repaired code; before, only the 30 s cleanup
+   sweep enforced the two minutes) *)
+Definition find_vip_raw (s : st) (v : N) : option vipentry := find (fun e => N.eqb (vc e) v) (vip s).
 Definition tx_user (s : st) (tx : N) : option N :=
   match find (fun e => N.eqb (fst e) tx) (txs s) with Some e => Some (snd e) | None => None end.
 Definition is_approved (s : st) (tx : N) : bool := existsb (N.eqb tx) (approved s).
@@ -211,6 +216,12 @@ Definition has_any_key (d : devices) : bool := has_u2f d || has_wa d.
 
 Section Step.
 Variable k : config.
+
+Definition find_vip (s : st) (v : N) : option vipentry :=
+  match find_vip_raw s v with
+  | Some e => if vip_expiry k && (vexp e <=? now s)%Z then None else Some e
+  | None => None
+  end.
 
 (* one request; `cert`: verified client certificate, `fault`: SaveUserProfile fails *)
 Definition step_req (cert : option N) (fault : bool) (s : st) (o : op) : st * option cookie :=
@@ -245,7 +256,7 @@ Definition step_req (cert : option N) (fault : bool) (s : st) (o : op) : st * op
               (* StartUserVIPPush(user): a new transaction, sent to that user's phone *)
               let tx := fresh s in
               ({| issued := issued s; tokens := tokens s;
-                  vip := {| vc := v; vuser := u; vtx := tx |} :: vip s;
+                  vip := {| vc := v; vuser := u; vtx := tx; vexp := (now s + vip_life k)%Z |} :: vip s;
                   txs := (tx, u) :: txs s; approved := approved s; chal := chal s;
                   last_totp := last_totp s; boot := boot s; proved := proved s; spent := spent s;
                   now := now s; fresh := fresh s + 1 |}, None)
@@ -446,7 +457,7 @@ End Step.
 (* the code as repaired *)
 Definition fixed (d : N -> devices) (w : N) : config :=
   {| devs := d; webui := w; cookie_life := 57600; sel_last := true; upg_last := true;
-     poll_checks_user := true; totp_monotone := true;
+     vip_life := 120; vip_expiry := true; poll_checks_user := true; totp_monotone := true;
      chal_expiry := true; chal_delete_wa := true; upgrade_checks_owner := true |}.
 
 (* ---- correspondence: per step, did the handler answer with success, and the (user, level) of
